@@ -61,12 +61,16 @@ OutsideMols(e) == { g \in Mols(e) : /\ Sited(e, g) /\ \E t \in RegionTasks(e) : 
 SkipKeys(e) == UNION { MKeys(e, g) : g \in OutsideMols(e) }
 
 (* extent of a fragment = cells covered by its reads and its cut site: "one fragment length" of the statement *)
-FragExt(e, g, q) ==
-    LET R == { r \in MRecs(e, g) : r.q = q /\ r.c >= 0 }
+(* per molecule: the placed records, the names among them, and (one table) lowest start / highest end per name *)
+MolExt(e, g) ==
+    LET R == { r \in MRecs(e, g) : r.c >= 0 }
+        Q == { r.q : r \in R }
         st == IF Sited(e, g) /\ \A r \in R : r.c = e.serial[g].sc THEN { e.serial[g].s } ELSE {}
-    IN MaxOf({ r.e : r \in R } \cup { x + 1 : x \in st }) - MinOf({ r.p : r \in R } \cup st)
-MolExt(e, g) == LET Q == { r.q : r \in { x \in MRecs(e, g) : x.c >= 0 } } IN
-                IF Q = {} THEN 0 ELSE MaxOf({ FragExt(e, g, q) : q \in Q })
+        \* identical (name-less) geometry is shared by PCR duplicates: work on the distinct (q, p, e) triples
+        T == { <<r.q, r.p, r.e>> : r \in R }
+        ext(q) == LET Tq == { t \in T : t[1] = q } IN
+                  MaxOf({ t[3] : t \in Tq } \cup { x + 1 : x \in st }) - MinOf({ t[2] : t \in Tq } \cup st)
+    IN IF Q = {} THEN 0 ELSE MaxOf({ ext(q) : q \in Q })
 MolContig(e, g) == LET R == { r \in MRecs(e, g) : r.c >= 0 } IN IF R = {} THEN -1 ELSE (CHOOSE r \in R : TRUE).c
 MaxExt(e, c) == MaxOf({0} \cup { MolExt(e, g) : g \in { x \in Mols(e) : MolContig(e, x) = c } })
 MarginOK(e) ==
@@ -92,8 +96,9 @@ Output(e) == IF Len(e.merged) > 0 THEN [i \in DOMAIN e.merged |-> Proj(e.merged[
 OwnerVerdict(e) ==
     LET JK == JobKeys(e)
         S == { g \in Mols(e) : Sited(e, g) }
+        MK == [g \in S |-> MKeys(e, g)]                 \* tables: computed once per event
         O == [g \in S |-> Owners(e, e.serial[g].sc, e.serial[g].s)]
-        W == [g \in S |-> { j \in DOMAIN e.jobs : JK[j] \cap MKeys(e, g) # {} }]
+        W == [g \in S |-> { j \in DOMAIN e.jobs : JK[j] \cap MK[g] # {} }]
         G == { g \in S : Cardinality(O[g]) = 1 }
         \* bases of a tiled contig that belong to no bin (only the repo's own tiler can do that to an in-scope run)
         U == { g \in S \ OutsideMols(e) : O[g] = {} /\ \E t \in RegionTasks(e) : t.c = e.serial[g].sc }
@@ -104,14 +109,25 @@ OwnerVerdict(e) ==
        ELSE "Inv_C08_OneOwner_wrong_job"
 
 (* Inv_C08_Complete: the owner wrote every record of the molecule once, as one molecule (one ix) *)
+(* (evaluated job by job with the job's key set bound once: TLC re-evaluates function-valued LETs on every application) *)
 CompleteVerdict(e) ==
     LET S == { g \in Mols(e) : Sited(e, g) }
-        G == { g \in S : Cardinality(Owners(e, e.serial[g].sc, e.serial[g].s)) = 1 }
-        Own == [g \in G |-> CHOOSE j \in Owners(e, e.serial[g].sc, e.serial[g].s) : TRUE]
-        Mine == [g \in G |-> { i \in DOMAIN e.jobs[Own[g]].recs : Key(e.jobs[Own[g]].recs[i]) \in MKeys(e, g) }]
-    IN IF \E g \in G : \/ Cardinality(Mine[g]) # Cardinality(MKeys(e, g))
-                       \/ { Key(e.jobs[Own[g]].recs[i]) : i \in Mine[g] } # MKeys(e, g) THEN "Inv_C08_Complete_records"
-       ELSE IF \E g \in G : Cardinality({ e.jobs[Own[g]].recs[i].ix : i \in Mine[g] }) > 1 THEN "Inv_C08_Complete_split"
+        own(g) == Owners(e, e.serial[g].sc, e.serial[g].s)
+        G == { g \in S : Cardinality(own(g)) = 1 }
+        BadRecords(j) ==
+            LET recs == e.jobs[j].recs
+                ks == { Key(recs[i]) : i \in DOMAIN recs }
+                dupfree == Cardinality(ks) = Len(recs)
+            IN \E g \in { x \in G : own(x) = {j} } :
+                  LET mk == MKeys(e, g) IN
+                  \/ ~(mk \subseteq ks)
+                  \/ (~dupfree /\ \E k \in mk : Cardinality({ i \in DOMAIN recs : Key(recs[i]) = k }) # 1)
+        Split(j) ==
+            LET ki == { <<Key(r), r.ix>> : r \in Rng(e.jobs[j].recs) }
+            IN \E g \in { x \in G : own(x) = {j} } :
+                  LET mk == MKeys(e, g) IN Cardinality({ p[2] : p \in { x \in ki : x[1] \in mk } }) > 1
+    IN IF \E j \in DOMAIN e.jobs : BadRecords(j) THEN "Inv_C08_Complete_records"
+       ELSE IF \E j \in DOMAIN e.jobs : Split(j) THEN "Inv_C08_Complete_split"
        ELSE "ok"
 
 (* Inv_C08_Equal: the output is, as a bag of (name, mate, flag, contig, pos, tags \ {mi, ix}), the serial output *)
@@ -121,13 +137,15 @@ EqualVerdict(e) ==
         out == Output(e)
         got == { i \in DOMAIN out : KeyOfProj(out[i]) \notin skip }
         gotset == { out[i] : i \in got }
-        NK(k) == Cardinality({ i \in got : KeyOfProj(out[i]) = k })
+        wantkeys == { KeyOfProj(w) : w \in want }
+        gotkeys == { KeyOfProj(x) : x \in gotset }
         nosite == UNION { MKeys(e, g) : g \in NoSiteMols(e) }
     IN IF Cardinality(gotset) = Cardinality(got) /\ gotset = want THEN "ok"
-       ELSE IF \E w \in want : NK(KeyOfProj(w)) = 0 /\ KeyOfProj(w) \in nosite THEN "Inv_C08_Equal_missing_molecule_without_site"
-       ELSE IF \E w \in want : NK(KeyOfProj(w)) = 0 THEN "Inv_C08_Equal_missing"
-       ELSE IF \E w \in want : NK(KeyOfProj(w)) > 1 THEN "Inv_C08_Equal_duplicated"
-       ELSE IF \E w \in want : w \notin gotset THEN "Inv_C08_Equal_changed"
+       ELSE IF (wantkeys \ gotkeys) \cap nosite # {} THEN "Inv_C08_Equal_missing_molecule_without_site"
+       ELSE IF wantkeys \ gotkeys # {} THEN "Inv_C08_Equal_missing"
+       \* some (name, mate) of the serial output occurs more than once in the output
+       ELSE IF Cardinality({ i \in got : KeyOfProj(out[i]) \in wantkeys }) > Cardinality(wantkeys) THEN "Inv_C08_Equal_duplicated"
+       ELSE IF want \ gotset # {} THEN "Inv_C08_Equal_changed"
        ELSE "Inv_C08_Equal_extra"
 
 Judged(e) ==
@@ -136,16 +154,17 @@ Judged(e) ==
     ELSE LET cv == CompleteVerdict(e) IN
          IF cv # "ok" THEN cv ELSE EqualVerdict(e)
 
-Verdict(e) ==
+(* sc = InScope(e), computed once per event in TNext (the extents of all fragments are behind it) *)
+Verdict(e, sc) ==
     IF e.ev # "run" THEN "unknown_event"
-    ELSE IF ~InScope(e) THEN "ok"                       \* outside the statement's precondition: observation only
+    ELSE IF ~sc THEN "ok"                               \* outside the statement's precondition: observation only
     ELSE IF e.raised # "" THEN "Inv_C08_raised"
     ELSE Judged(e)
 
 (* informational observations *)
-Notes(i, e, v) ==
+Notes(i, e, v, sc) ==
     LET tok == TilingOK(e) /\ WindowsOK(e)
-        mok == InScope(e) IN
+        mok == sc IN
     /\ IF ByRequest(e) /\ ~mok THEN Note(i, e.tid, "precondition_not_met_requested_fragment_size") ELSE TRUE
     /\ IF ByRequest(e) /\ mok /\ ~(tok /\ MarginOK(e)) THEN Note(i, e.tid, "api_tiler_windows_below_request") ELSE TRUE
     /\ IF ~ByRequest(e) /\ ~TilingOK(e) THEN Note(i, e.tid, "precondition_not_met_tiling") ELSE TRUE
@@ -161,6 +180,8 @@ Notes(i, e, v) ==
        ELSE TRUE
 
 TInit == l = 1
-TNext == l <= Len(Log) /\ LET v == Verdict(Log[l]) IN Judge(l, v) /\ Notes(l, Log[l], v) /\ l' = l + 1
+TNext == l <= Len(Log) /\ LET sc == InScope(Log[l])
+                            v == Verdict(Log[l], sc)
+                        IN Judge(l, v) /\ Notes(l, Log[l], v, sc) /\ l' = l + 1
 TAccepted == TLCGet("stats").diameter - 1 = Len(Log)
 =====================================================================================================
